@@ -4,7 +4,7 @@
 From Coq Require Import String Ascii List NArith ZArith Bool Permutation.
 From TV Require Import model.Parser model.FormatParser spec.Grammar.
 From TV Require proofs.ParserFuel proofs.ParserGrammar proofs.ParserMeaning proofs.ParserValidate
-  proofs.ParserFormat.
+  proofs.ParserFormat proofs.ParserLex proofs.ParserLexWf.
 Import ListNotations.
 
 (** Parsing is total: the model parser always answers with a tree or a typed failure (the
@@ -130,3 +130,64 @@ Theorem C12_ordering_check_iff_permutation :
     (check_ordering n ord = true <-> Permutation ord (range n)).
 Proof. exact ParserFormat.ordering_check_iff_permutation. Qed.
 Print Assumptions C12_ordering_check_iff_permutation.
+
+(* ------------------------------------------------------------------------------------------ *)
+(** * Character level: lexer + parser on strings, printer to strings.
+    Integers are spelled in decimal ([show_N] = str(int), [C12_int_codec]); Python's str(float) is
+    not modelled, it is the parameter [show_float] (literal codec, see design.d/C12.md). *)
+
+Theorem C12_text_parse_total : forall s : string, parse_assignment s <> PFuel.
+Proof. exact ParserLex.parse_assignment_total. Qed.
+Print Assumptions C12_text_parse_total.
+
+(** what the string parser returns is well-formed: valid names, normalised literals, validated *)
+Theorem C12_text_parsed_is_wf : forall s a, parse_assignment s = POk a -> ParserLex.wf_ast a.
+Proof. exact ParserLexWf.parse_assignment_wf. Qed.
+Print Assumptions C12_text_parsed_is_wf.
+
+(** the printed characters lex to the printed tokens *)
+Theorem C12_lex_print_canonical :
+  forall a, ParserLex.valid_name (tname a) = true -> forallb ParserLex.valid_name (tindexes a) = true ->
+    ParserLex.names_ok (rhs a) = true -> ParserLex.floats_ok (rhs a) ->
+    ParserLex.lex_chars (print_assignment show_dec_canonical a) = Some (deparse a).
+Proof. exact (ParserLex.lex_print_assignment show_dec_canonical ParserLex.show_dec_canonical_lex). Qed.
+Print Assumptions C12_lex_print_canonical.
+
+(** Full character-level round trip for every accepted text whose tree has no float literal:
+    the printed text is exactly Python's (names, decimal integers, " + ", parentheses ...) and it
+    parses back to the same tree, whatever the float printer is. *)
+Theorem C12_text_roundtrip_int :
+  forall (show_float : dec -> list ascii) s a,
+    parse_assignment s = POk a -> float_free (rhs a) = true ->
+    parse_assignment (string_of_list_ascii (print_assignment show_float a)) = POk a.
+Proof. exact ParserLexWf.text_roundtrip_int. Qed.
+Print Assumptions C12_text_roundtrip_int.
+
+(** With float literals the statement depends on the float printer.  Full statement, for a given
+    printer (meant: Python's str(float)): *)
+Definition C12_text_roundtrip_full (show_float : dec -> list ascii) : Prop :=
+  forall s a, parse_assignment s = POk a ->
+    parse_assignment (string_of_list_ascii (print_assignment show_float a)) = POk a.
+
+(** the codec assumption: the printed float is a spelling the lexer reads back to the same value *)
+Definition C12_float_codec_ok (show_float : dec -> list ascii) : Prop :=
+  forall f rest, ParserLex.dec_norm f -> ParserLex.delim rest ->
+    (exists c r, show_float f = c :: r /\ is_digit c = true) /\
+    lex_number (show_float f ++ rest) = (TFloat f, rest).
+
+(** GAP: [C12_float_codec_ok] is not proved of Python's str(float) (binary64 rounding and the
+    repr algorithm are outside the model; on the unchanged tree it is FALSE for literals that
+    overflow, finding K-C12-3).  It is checked by the correspondence run on every float of the
+    sweep.  The hypothesis is satisfiable: the example below instantiates it. *)
+Theorem C12_text_roundtrip_partial :
+  forall show_float, C12_float_codec_ok show_float -> C12_text_roundtrip_full show_float.
+Proof. exact ParserLexWf.text_roundtrip. Qed.
+Print Assumptions C12_text_roundtrip_partial.
+
+Example C12_float_codec_ok_example : C12_float_codec_ok show_dec_canonical.
+Proof. exact ParserLex.show_dec_canonical_lex. Qed.
+
+(** hence, closed: the round trip through the canonical spelling  <mantissa>e<exponent> *)
+Theorem C12_text_roundtrip_canonical : C12_text_roundtrip_full show_dec_canonical.
+Proof. exact ParserLexWf.text_roundtrip_canonical. Qed.
+Print Assumptions C12_text_roundtrip_canonical.
